@@ -379,8 +379,13 @@ func ruleC02OnePerRow(c *Ctx) {
 			}
 		} else {
 			nArr++
-			if recCall == nil || !(appended != nil && appended.Op == "varargs" && len(appended.Args) == 1 && ext0(appended.Args[0]) != nil && ext0(appended.Args[0]).V == recCall.Instr.(ssa.Value)) {
-				why = append(why, "the []any arm does not append the nested projection of that inner array")
+			// an inner array's result was produced (filtered and projected) by its own copy of the query in
+			// exec: it is passed through as it is; projecting it again would apply the select list twice
+			passThrough := appended != nil && appended.Op == "varargs" && len(appended.Args) == 1 && appended.Args[0].Op == "ext" && appended.Args[0].Args[0].Op == "assertok" && elemOfLoop(appended.Args[0], lp)
+			if recCall != nil || projCall != nil {
+				why = append(why, "the []any arm projects the rows of an inner result again (the select list is applied twice: aliases and computed columns become NULL)")
+			} else if !passThrough {
+				why = append(why, "the []any arm does not pass the inner result through")
 			}
 		}
 	}
